@@ -319,3 +319,316 @@ Proof.
 Qed.
 
 End Parsed.
+
+(* ================================================================ renaming group numbers keeps the side conditions *)
+Lemma forallb_map_ext {A} (f g : A -> bool) (h : A -> A) l :
+  Forall (fun x => f (h x) = g x) l -> forallb f (map h l) = forallb g l.
+Proof. induction 1 as [|x l Hx _ IH]; [reflexivity|]. cbn. rewrite Hx, IH. reflexivity. Qed.
+
+Lemma ren_dir_ok mc d : forall t, tm_dir_ok d (ren_with mc t) = tm_dir_ok d t.
+Proof.
+  induction t using node_ind'; cbn [ren_with tm_dir_ok]; try reflexivity; try assumption.
+  - apply forallb_map_ext. exact H.
+  - apply forallb_map_ext. exact H.
+  - rewrite IHt. destruct no as [x|]; cbn [mask_opt_node tm_opt opt_all] in *; [rewrite H|]; reflexivity.
+  - rewrite IHt2. destruct no as [x|]; cbn [mask_opt_node tm_opt opt_all] in *; [rewrite H|]; reflexivity.
+Qed.
+
+Lemma ren_term_ok mc : forall t, term_ok (ren_with mc t) = term_ok t.
+Proof.
+  induction t using node_ind'; cbn [ren_with term_ok]; try reflexivity; try assumption.
+  - apply forallb_map_ext. exact H.
+  - apply forallb_map_ext. exact H.
+  - rewrite !ren_dir_ok, IHt. reflexivity.
+  - rewrite IHt. destruct no as [x|]; cbn [mask_opt_node tm_opt opt_all] in *; [rewrite H|]; reflexivity.
+  - rewrite IHt1, IHt2. destruct no as [x|]; cbn [mask_opt_node tm_opt opt_all] in *; [rewrite H|]; reflexivity.
+Qed.
+
+Lemma ren_fuel_list mc tl l : Forall (fun t => term_fuel_n tl (ren_with mc t) = term_fuel_n tl t) l ->
+  tm_fuel_list tl (map (ren_with mc) l) = tm_fuel_list tl l.
+Proof.
+  induction 1 as [|x l Hx _ IH]; [reflexivity|]. cbn [map tm_fuel_list]. fold (tm_fuel_list tl (map (ren_with mc) l)). fold (tm_fuel_list tl l).
+  rewrite Hx, IH. reflexivity.
+Qed.
+
+Lemma ren_term_fuel mc tl : forall t, term_fuel_n tl (ren_with mc t) = term_fuel_n tl t.
+Proof.
+  induction t using node_ind'; cbn [ren_with term_fuel_n]; try reflexivity; try (rewrite IHt; reflexivity).
+  - fold (tm_fuel_list tl (map (ren_with mc) l)). fold (tm_fuel_list tl l). rewrite (ren_fuel_list mc tl l H). reflexivity.
+  - fold (tm_fuel_list tl (map (ren_with mc) l)). fold (tm_fuel_list tl l). rewrite (ren_fuel_list mc tl l H). reflexivity.
+  - rewrite IHt. destruct no as [x|]; cbn [mask_opt_node opt_all] in *; [rewrite H|]; reflexivity.
+  - rewrite IHt1, IHt2. destruct no as [x|]; cbn [mask_opt_node opt_all] in *; [rewrite H|]; reflexivity.
+Qed.
+
+(* every group number in G is sent to a slot *)
+Lemma ren_groups_ok (G : Z -> Prop) mc cs : mc (-1) = -1 -> (forall g, G g -> 0 <= mc g < cs) ->
+  forall t, ren_ok G t -> groups_ok2 cs (ren_with mc t).
+Proof.
+  intros M1 MG. unfold ren_ok, groups_ok2.
+  induction t using node_ind'; cbn [ren_with sb_all]; intros R; try (split; [exact I | exact I]).
+  - destruct R as [R _]. cbn in R. split; [cbn; apply MG; exact R | exact I].
+  - destruct R as [_ R]. split; [exact I|]. induction H as [|x l Hx _ IH]; [exact I|]. destruct R as [R1 R2]. cbn [map]. split; [apply Hx; exact R1 | apply IH; exact R2].
+  - destruct R as [_ R]. split; [exact I|]. induction H as [|x l Hx _ IH]; [exact I|]. destruct R as [R1 R2]. cbn [map]. split; [apply Hx; exact R1 | apply IH; exact R2].
+  - destruct R as [_ R]. split; [exact I | apply IHt; exact R].
+  - destruct R as [R0 R]. split; [|apply IHt; exact R]. cbn in R0 |- *.
+    destruct (u =? -1) eqn:EU.
+    + assert (u = -1) by lia. subst u. rewrite M1. cbn. apply MG. exact R0.
+    + destruct R0 as [RU RG]. pose proof (MG u RU) as MU.
+      assert (NU : (mc u =? -1) = false) by lia. rewrite NU. split; [exact MU|].
+      destruct RG as [-> | RG]; [left; exact M1 | right; apply MG; exact RG].
+  - destruct R as [_ R]. split; [exact I | apply IHt; exact R].
+  - destruct R as [_ R]. split; [exact I | apply IHt; exact R].
+  - destruct R as [_ R]. split; [exact I | apply IHt; exact R].
+  - destruct R as [_ R]. split; [exact I | apply IHt; exact R].
+  - destruct R as [R0 [R1 R2]]. cbn in R0. split; [cbn; apply MG; exact R0|]. split; [apply IHt; exact R1|].
+    destruct no as [x|]; cbn [mask_opt_node opt_all] in *; [apply H; exact R2 | exact I].
+  - destruct R as [_ [R1 [R2 R3]]]. split; [exact I|]. split; [apply IHt1; exact R1|]. split; [apply IHt2; exact R2|].
+    destruct no as [x|]; cbn [mask_opt_node opt_all] in *; [apply H; exact R3 | exact I].
+Qed.
+
+Lemma ren_ok_mono (G G' : Z -> Prop) : (forall g, G g -> G' g) -> forall t, ren_ok G t -> ren_ok G' t.
+Proof.
+  intros HG. unfold ren_ok.
+  induction t using node_ind'; cbn [sb_all]; intros R; try (destruct R as [R0 R]; split; [cbn in *; auto|]; auto).
+  - clear R0. induction H as [|x l Hx _ IH]; [exact I|]. destruct R as [R1 R2]. split; [apply Hx; exact R1 | apply IH; exact R2].
+  - clear R0. induction H as [|x l Hx _ IH]; [exact I|]. destruct R as [R1 R2]. split; [apply Hx; exact R1 | apply IH; exact R2].
+  - cbn in *. destruct (u =? -1); [auto|]. destruct R0 as [A [B|B]]; auto.
+  - destruct R as [R1 R2]. split; [auto|]. destruct no as [x|]; cbn [opt_all] in *; auto.
+  - destruct R as [R1 [R2 R3]]. split; [auto|]. split; [auto|]. destruct no as [x|]; cbn [opt_all] in *; auto.
+Qed.
+
+(* ================================================================ the writer's slot map *)
+(* codeFromTree (writer.go:76-87) from RegexTree.Caps / Captop (GroupMap.compile_maps): sparse numbers are mapped to
+   their index in the sorted key list, dense numbers are their own slots *)
+Definition caps_map (caps : list Z) (captop : Z) : option (list (Z * Z)) :=
+  if zlen caps <? captop then Some (List.combine caps (zrange (zlen caps))) else None.
+Definition caps_size (caps : list Z) (captop : Z) : Z := if zlen caps <? captop then zlen caps else captop.
+
+Lemma compile_maps_caps tb : tbl_ok tb ->
+  r_caps (compile_maps tb) = caps_map (t_caps tb) (t_captop tb) /\ r_capsize (compile_maps tb) = caps_size (t_caps tb) (t_captop tb).
+Proof.
+  intros [_ _ _ _ TL _]. unfold compile_maps, caps_map, caps_size. rewrite TL.
+  destruct (zlen (t_caps tb) <? t_captop tb) eqn:E; [|split; reflexivity].
+  assert (N : (t_captop tb =? zlen (t_caps tb)) = false) by lia. rewrite N. split; reflexivity.
+Qed.
+
+Lemma nodup_znodupb l : NoDup l -> znodupb l = true.
+Proof.
+  induction 1 as [|x l Hx _ IH]; [reflexivity|]. cbn [znodupb]. rewrite IH, andb_true_r.
+  destruct (zmem x l) eqn:E; [apply zmem_In in E; contradiction | reflexivity].
+Qed.
+
+Lemma zrange_nodup n : NoDup (zrange n).
+Proof. unfold zrange. apply FinFun.Injective_map_NoDup; [intros x y H; lia | apply seq_NoDup]. Qed.
+
+Lemma combine_fst_snd (l : list Z) : map fst (List.combine l (zrange (zlen l))) = l /\ map snd (List.combine l (zrange (zlen l))) = zrange (zlen l).
+Proof.
+  assert (L : length l = length (zrange (zlen l))) by (rewrite zrange_length; unfold zlen; lia).
+  revert L. generalize (zrange (zlen l)) as r. induction l as [|x l IH]; intros r L; destruct r as [|y r]; try discriminate; [split; reflexivity|].
+  cbn [List.combine map fst snd]. cbn [length] in L. destruct (IH r ltac:(lia)) as [A B]. rewrite A, B. split; reflexivity.
+Qed.
+
+Section SlotMap.
+Variable caps : list Z.
+Variable captop : Z.
+Hypothesis CS : ssorted caps.
+Hypothesis CZ : In 0 caps.
+Hypothesis CN : forall k, In k caps -> 0 <= k.
+Hypothesis CB : forall k, In k caps -> k < captop.
+
+Local Notation cm := (caps_map caps captop).
+Local Notation cc := {| capmap := caps_map caps captop; quick := None |}.
+
+Lemma caps_map_good : cm_good cm = true.
+Proof.
+  unfold caps_map. destruct (zlen caps <? captop); [|reflexivity]. unfold cm_good.
+  destruct (combine_fst_snd caps) as [F S]. rewrite F, S.
+  rewrite (nodup_znodupb caps (ssorted_NoDup _ CS)), (nodup_znodupb _ (zrange_nodup (zlen caps))). cbn [andb].
+  destruct (zmem (-1) (zrange (zlen caps))) eqn:E; [|reflexivity]. apply zmem_In in E. apply zrange_In in E. lia.
+Qed.
+
+Lemma caps_map_zero : map_capnum cc 0 = 0.
+Proof.
+  unfold map_capnum. cbn [Z.eqb capmap]. unfold caps_map. destruct (zlen caps <? captop); [|reflexivity].
+  destruct (sorted_head_zero caps CS CZ CN) as [r ->]. unfold zlen, zrange. cbn [length]. rewrite Nat2Z.id. cbn [seq map List.combine zassoc Z.eqb]. reflexivity.
+Qed.
+
+Lemma caps_map_G root : ren_ok (fun g => zmem g caps = true) root -> ren_ok (cm_G cm) root.
+Proof.
+  apply ren_ok_mono. intros g H. unfold caps_map. destruct (zlen caps <? captop); [|exact I].
+  cbn [cm_G]. rewrite (proj1 (combine_fst_snd caps)). apply zmem_In. exact H.
+Qed.
+
+Lemma caps_map_slots g : zmem g caps = true -> 0 <= map_capnum cc g < caps_size caps captop.
+Proof.
+  intros H. apply zmem_In in H. unfold map_capnum, caps_size. pose proof (CN g H) as N. assert (NG : (g =? -1) = false) by lia. rewrite NG.
+  cbn [capmap]. unfold caps_map. destruct (zlen caps <? captop) eqn:E.
+  - assert (I : In g (map fst (List.combine caps (zrange (zlen caps))))) by (rewrite (proj1 (combine_fst_snd caps)); exact H).
+    apply cm_zassoc_in in I. apply (in_map snd) in I. cbn [snd] in I. rewrite (proj2 (combine_fst_snd caps)) in I. apply zrange_In in I. exact I.
+  - split; [exact N | apply CB; exact H].
+Qed.
+
+Lemma caps_map_groups root : ren_ok (fun g => zmem g caps = true) root -> groups_ok2 (caps_size caps captop) (ren cc root).
+Proof. unfold ren. apply ren_groups_ok; [reflexivity | apply caps_map_slots]. Qed.
+
+End SlotMap.
+
+(* ================================================================ from the tree to the interpreter *)
+From Verif Require Import Proofs.CompileSafe.
+
+(* the compile + termination theorems applied to a tree with the side conditions of this file *)
+Theorem tree_end_to_end (caps : list Z) (captop : Z) (o : Z) (body : node) :
+  ssorted caps -> In 0 caps -> (forall k, In k caps -> 0 <= k) -> (forall k, In k caps -> k < captop) ->
+  let root := NCapture o 0 (-1) body in
+  let cm := caps_map caps captop in
+  let c := {| capmap := cm; quick := None |} in
+  supported2 root = true -> term_ok root = true -> ren_ok (fun g => zmem g caps = true) root ->
+  forall (e : env) (p : program),
+    0 <= trackcount p -> track_count (codes p) <= trackcount p -> tlen e <= INF ->
+    codes p = fst (compile c root) -> strings p = snd (compile c root) -> capsize p = caps_size caps captop ->
+    Z.of_nat (term_fuel e root) <= INF ->
+    forall t0, 0 <= t0 <= tlen e ->
+    exists r, attempt e (term_fuel e root) root t0 = Ok r /\
+    exists vfuel0 : nat, forall L vfuel, (vfuel0 <= vfuel)%nat ->
+      let x := exec_at e p L vfuel t0 in
+      ((x = Err E_StackLimit /\ 0 <= L) \/
+       (exists s', x = Ok s' /\ pc s' = 2 + csize c root /\ mode s' = 0 /\
+          match r with
+          | Some q => tp s' = pos q /\ caps_rel_map p cm (Spec.caps q) (mcaps s') /\ matched0 s' = true
+          | None => mcaps s' = repeat [] (Z.to_nat (capsize p)) /\ matched0 s' = false
+          end)) /\
+      (L < 0 -> exists s', x = Ok s').
+Proof.
+  intros CS CZ CN CB root cm c HS HT HR e p Htc Htk Htl Hcodes Hstr Hcs Hf t0 Ht0.
+  assert (G1 : cm_good cm = true) by (apply caps_map_good; assumption).
+  assert (G2 : map_capnum c 0 = 0) by (apply caps_map_zero; assumption).
+  assert (G3 : ren_ok (cm_G cm) root) by (apply caps_map_G; assumption).
+  assert (G4 : groups_ok2 (capsize p) (ren c root)) by (rewrite Hcs; apply caps_map_groups; assumption).
+  (* the reference search answers on the tree ... *)
+  destruct (spec_attempt_total e root t0 HT Ht0 (term_fuel e root) (Nat.le_refl _)) as [r [Hatt _]].
+  exists r. split; [exact Hatt|].
+  (* ... and on the renamed tree, whose cfg0 code is the emitted code *)
+  set (root' := ren c root).
+  assert (ER : root' = NCapture o 0 (-1) (ren c body)).
+  { unfold root', ren, root. cbn [ren_with]. rewrite G2. reflexivity. }
+  assert (HT' : term_ok root' = true) by (unfold root', ren; rewrite ren_term_ok; exact HT).
+  assert (HF' : term_fuel e root' = term_fuel e root) by (unfold root', ren, term_fuel; apply ren_term_fuel).
+  assert (HS' : supported2 root' = true) by (unfold root', ren; rewrite cmap_supported2; exact HS).
+  destruct (spec_attempt_total e root' t0 HT' Ht0 (term_fuel e root) ltac:(rewrite HF'; apply Nat.le_refl)) as [r' [Hatt' _]].
+  pose proof (cmap_compile c eq_refl root) as CC. fold root' in CC.
+  assert (G4' : groups_ok2 (capsize p) root') by exact G4.
+  rewrite ER in *.
+  destruct (compile_exec_total e p Htc Htk Htl (term_fuel e root) o (ren c body) t0 r'
+              ltac:(rewrite Hcodes, CC; reflexivity) ltac:(rewrite Hstr, CC; reflexivity) HS' G4' Ht0 Hf Hatt') as [n Hn].
+  exists (S n). intros L vfuel Hv x.
+  destruct (Hn L vfuel) as [Htri Hunl]. cbv zeta in Htri, Hunl. fold x in Htri, Hunl.
+  assert (Hlt : (n < 1000 * vfuel)%nat) by lia.
+  split; [|intros HL; exact (Hunl HL Hlt)].
+  destruct Htri as [Hlim | [[_ [s' Hx]] | [Hge _]]]; [left; exact Hlim | | lia].
+  right. exists s'. split; [exact Hx|].
+  exact (compile_correct_capmap_exec_partial e p cm Htc Htl L (term_fuel e root) vfuel o body t0 r s'
+           Hcodes Hstr HS G1 G2 G3 G4 Ht0 Hf Hatt Hx).
+Qed.
+
+(* ================================================================ from the pattern text *)
+(* the per-tree check of leg c10-parse (Extract/Drv10.v nums_okb, same definition) *)
+Fixpoint nums_b (caps : list Z) (x : rnode) : bool :=
+  match x with
+  | RN t _ _ m n _ _ kids =>
+      (if t =? T_Capture then (if n =? -1 then zmem m caps else zmem n caps && ((m =? -1) || zmem m caps))
+       else if (t =? T_Ref) || (t =? T_BackRefCond) then zmem m caps else true)
+      && (fix go (ks : list rnode) : bool := match ks with [] => true | k :: ks' => nums_b caps k && go ks' end) kids
+  end.
+
+Lemma nums_b_eq caps t o ch m n str st kids :
+  nums_b caps (RN t o ch m n str st kids) =
+  (if t =? T_Capture then (if n =? -1 then zmem m caps else zmem n caps && ((m =? -1) || zmem m caps))
+   else if (t =? T_Ref) || (t =? T_BackRefCond) then zmem m caps else true) && forallb (nums_b caps) kids.
+Proof.
+  cbn [nums_b]. reflexivity.
+Qed.
+
+(* shape + numbers = the full invariant *)
+Lemma shape_nums_wf caps : forall x, wfb (fun _ => true) x = true -> nums_b caps x = true -> wfb (fun k => zmem k caps) x = true.
+Proof.
+  induction x as [t o ch m n str st kids IH] using rnode_ind'. intros W N.
+  rewrite wfb_eq in W |- *. rewrite nums_b_eq in N. apply andb_prop in W. destruct W as [K WK]. apply andb_prop in N. destruct N as [N0 NK].
+  apply andb_true_intro. split.
+  - unfold knd, gq in *. pose proof (kcls_inv t) as INV. destruct (kcls t) eqn:KC; try exact K.
+    + (* leaf *) apply andb_prop in K. destruct K as [K1 _]. rewrite K1. cbn [andb].
+      destruct (t =? T_Ref) eqn:ER; [|reflexivity]. assert (t = 13) by (unfold T_Ref in ER; lia). subst t. cbn in N0 |- *. exact N0.
+    + (* one child *) destruct kids as [|k [|k2 r]]; try discriminate.
+      destruct (t =? T_Capture) eqn:EC; [|reflexivity]. cbn [negb orb]. exact N0.
+    + (* BackRefCond *) subst t. cbn in N0 |- *. destruct kids as [|k [|k2 [|k3 r]]]; try discriminate; exact N0.
+  - clear K N0. induction IH as [|k r Hk _ IHr]; [reflexivity|]. cbn [forallb] in *.
+    apply andb_prop in WK. destruct WK as [W1 W2]. apply andb_prop in NK. destruct NK as [N1 N2].
+    rewrite (Hk W1 N1), (IHr W2 N2). reflexivity.
+Qed.
+
+Section EndToEnd.
+Variable is_word_char : Z -> bool.
+Variable to_lower : Z -> Z.
+Variable simple_fold : Z -> Z.
+Variable participates : Z -> bool.
+Variable cat_in : Z -> Z -> bool.
+Variable cat_name : list Z -> Z.
+
+Local Notation parse := (parse is_word_char to_lower simple_fold participates cat_in cat_name).
+
+(* what is claimed of the program the writer emits for the parsed tree *)
+Definition runs_as_spec (caps : list Z) (captop : Z) (root : node) : Prop :=
+  let cm := caps_map caps captop in
+  let c := {| capmap := cm; quick := None |} in
+  forall (e : env) (p : program),
+    0 <= trackcount p -> track_count (codes p) <= trackcount p -> tlen e <= INF ->
+    codes p = fst (compile c root) -> strings p = snd (compile c root) -> capsize p = caps_size caps captop ->
+    Z.of_nat (term_fuel e root) <= INF ->
+    forall t0, 0 <= t0 <= tlen e ->
+    exists r, attempt e (term_fuel e root) root t0 = Ok r /\
+    exists vfuel0 : nat, forall L vfuel, (vfuel0 <= vfuel)%nat ->
+      let x := exec_at e p L vfuel t0 in
+      ((x = Err E_StackLimit /\ 0 <= L) \/
+       (exists s', x = Ok s' /\ pc s' = 2 + csize c root /\ mode s' = 0 /\
+          match r with
+          | Some q => tp s' = pos q /\ caps_rel_map p cm (Spec.caps q) (mcaps s') /\ matched0 s' = true
+          | None => mcaps s' = repeat [] (Z.to_nat (capsize p)) /\ matched0 s' = false
+          end)) /\
+      (L < 0 -> exists s', x = Ok s').
+
+(* outright: every option word but ECMAScript *)
+Theorem pattern_text_end_to_end o mco_flag ptxt t caps captop :
+  (forall c, is_word_char c = true -> negb (zmem c [33; 35; 39; 40; 41; 45; 60; 61; 62; 63; 91; 92]) = true) ->
+  (forall c, (49 <=? c) && (c <=? 57) = true -> is_word_char c = true) ->
+  useE o = false -> captop < maxint32 ->
+  parse o mco_flag ptxt = Ok (PR_Tree t caps captop) ->
+  forall sid, exists body,
+    to_node sid t = Some (NCapture (n_o t) 0 (-1) body) /\ runs_as_spec caps captop (NCapture (n_o t) 0 (-1) body).
+Proof.
+  intros HW HD HE HT E sid.
+  destruct (parsed_tree_groups is_word_char to_lower simple_fold participates cat_in cat_name o mco_flag ptxt t caps captop HW HD HE HT E sid)
+    as [body [EN [S [T R]]]].
+  destruct (parsed_caps_table is_word_char to_lower simple_fold participates cat_in cat_name o mco_flag ptxt t caps captop E) as [CS [CZ [CN CB]]].
+  exists body. split; [exact EN|]. unfold runs_as_spec.
+  exact (tree_end_to_end caps captop (n_o t) body CS CZ CN (CB HT) S T R).
+Qed.
+
+(* every option word (ECMAScript included), the group numbers checked on the tree *)
+Theorem pattern_text_end_to_end_checked o mco_flag ptxt t caps captop :
+  captop < maxint32 ->
+  parse o mco_flag ptxt = Ok (PR_Tree t caps captop) ->
+  nums_b caps t = true ->
+  forall sid, exists body,
+    to_node sid t = Some (NCapture (n_o t) 0 (-1) body) /\ runs_as_spec caps captop (NCapture (n_o t) 0 (-1) body).
+Proof.
+  intros HT E NB sid.
+  pose proof (parse_tree_shape is_word_char to_lower simple_fold participates cat_in cat_name o mco_flag ptxt t caps captop E) as W0.
+  pose proof (shape_nums_wf caps t W0 NB) as W.
+  destruct (parse_tree_root is_word_char to_lower simple_fold participates cat_in cat_name o mco_flag ptxt t caps captop E) as [R1 [R2 R3]].
+  destruct (wf_conv sid (fun k => zmem k caps) t W) as [root [ER [[S [T R]] _]]].
+  destruct (root_conv sid (fun k => zmem k caps) t R1 R2 R3 root W ER) as [body ->].
+  destruct (parsed_caps_table is_word_char to_lower simple_fold participates cat_in cat_name o mco_flag ptxt t caps captop E) as [CS [CZ [CN CB]]].
+  exists body. split; [exact ER|]. unfold runs_as_spec.
+  exact (tree_end_to_end caps captop (n_o t) body CS CZ CN (CB HT) S T R).
+Qed.
+
+End EndToEnd.
